@@ -960,6 +960,48 @@ fn conc_props(tier: &str, seed: u64, out: &str) {
             ctx.count("scenarios");
         }
     }
+    // large hubs (degree thresholds inside mutators): the schedule space cannot be enumerated, so the second thread is
+    // let in at every k-th decision of the first (one preemption, then it runs to completion): `@sched=` ids are forced
+    let mut nlarge = 0usize;
+    for fl in ["sdi", "sun"] {
+        exec::new_section();
+        let hubdeg = 70usize;
+        let mut prefix: Vec<String> = (0..hubdeg + 4).map(|k| format!("new {k} 0")).collect();
+        for k in 1..=hubdeg {
+            // half of the edges are created from the hub, half towards it
+            prefix.push(if k % 2 == 0 { format!("connect 0 {k} {}", k % 3) } else { format!("connect {k} 0 {}", k % 3) });
+        }
+        let other = hubdeg + 1;
+        let specs = [format!("x.0|c.0.{other}.5/d.0.3"), format!("x.0|c.{other}.0.5/d.4.0"), format!("x.0|t.0.{other}.5/x.2"), format!("d.0.2/x.0|c.{other}.0.1/c.0.{other}.2")];
+        for spec in specs.iter().take(if quick { 2 } else { 4 }) {
+            if exec::stopped() {
+                break;
+            }
+            let threads = exec_conc::parse_threads(spec);
+            let seq = if fl == "sdi" { exec_conc::sdi::sequential_outcomes(&prefix, &threads) } else { exec_conc::sun::sequential_outcomes(&prefix, &threads) };
+            let step = if quick { 3 } else { 1 };
+            let mut k = 0usize;
+            while k < 330 && !exec::stopped() {
+                let ids: Vec<String> = std::iter::repeat("0".to_string()).take(k).chain(std::iter::repeat("1".to_string()).take(60)).chain(std::iter::repeat("0".to_string()).take(400)).collect();
+                let mut lines = vec![format!("case {fl} L{total}")];
+                lines.extend(prefix.iter().cloned());
+                lines.push(format!("conc {spec} @sched={}", ids.join(",")));
+                ctx.forced_schedule = vec![];
+                ctx.last_outcome = None;
+                exec::run_program(&lines, ctx);
+                total += 1;
+                nlarge += 1;
+                if let Some(o) = ctx.last_outcome.take() {
+                    let bad = o.1 == "POISONED" || o.0.iter().flatten().any(|r| r == "PANIC" || r == "DEADLOCK" || r == "?");
+                    if !bad && !seq.contains(&o) {
+                        ctx.fail(&format!("case {fl} L{}", total - 1), prefix.len(), "c17", format!("scenario on a hub of degree {hubdeg} `{spec}`, second thread let in after {k} decisions: results {:?} and the final state equal no sequential order of the calls", o.0));
+                    }
+                }
+                k += step;
+            }
+        }
+    }
+    extra.insert("large_hubs".into(), format!("{nlarge} schedules (one preemption point each) on a hub of degree 70"));
     for (k, v) in per_fl {
         extra.insert(format!("schedules.{k}"), format!("{v}"));
     }
